@@ -554,6 +554,16 @@ def run(ctx):
     ctx.rule('C07.R7', 'host identity is fresh per manager object', floor=2)
     for fam in SA:
         r7_host_identity(ctx, fam)
+    ctx.rule('C04.R2', 'disconnect on the owning host: test, mark, handler, '
+             'then a LOCAL release (ignore_queue=True) - routed through the '
+             'queue the release would come back to a client already marked '
+             '(shared rule)', floor=12)
+    ctx.rule('C04.R1', 'asyncio: no suspension between the connected-test '
+             'and the mark (shared rule)', floor=2)
+    from .c04 import r1_r2_site
+    for fam in SA:
+        for fname in ('disconnect', '_handle_disconnect'):
+            r1_r2_site(ctx, fam, fname)
     ctx.rule('C07.R3', 'callbacks complete only at home', floor=8)
     for fam in SA:
         r3_callbacks(ctx, fam)
